@@ -40,7 +40,7 @@ Definition full_faithful (r : full) : Prop :=
 (* a cache entry (e.g. one installed by the application): marked Authenticated
    only if the session really was established by an authentication *)
 Definition entry_faithful (e : sentry) : Prop :=
-  e_authn e = true -> e_auth_real e = true.
+  e_client e = false -> e_authn e = true -> e_auth_real e = true.
 
 Definition cache_faithful (k : cache) : Prop := Forall (fun se => entry_faithful (snd se)) k.
 
